@@ -23,7 +23,6 @@ import (
 	"os"
 	"sort"
 	"strconv"
-	"strings"
 	"sync"
 
 	"github.com/blevesearch/bleve/v2"
@@ -500,8 +499,30 @@ func (it *interner) pack(xs ...uint64) cf.T {
 	return cf.T(strconv.FormatUint(n, 10) + "%uint63")
 }
 
-// render renders a dump as the Coq arguments "rows count" of mkDump.
-func render(d *rawDump, it *interner) string {
+// backEntries prints the (sorted) entries of a back index row: the terms entries and the stored entries.
+func backEntries(tes []tentry, ses []sentry) (cf.T, cf.T) {
+	sort.SliceStable(tes, func(i, j int) bool { return tes[i].field < tes[j].field })
+	sortStoredKeys(ses)
+	tts := make([]cf.T, len(tes))
+	for i, e := range tes {
+		sort.Slice(e.terms, func(a, b int) bool { return e.terms[a] < e.terms[b] })
+		ts := make([]cf.T, len(e.terms))
+		for j, t := range e.terms {
+			ts[j] = i63s(t)
+		}
+		tts[i] = cf.App("TE", i63s(e.field), lst("int", ts))
+	}
+	sts := make([]cf.T, len(ses))
+	for i, e := range ses {
+		sts[i] = cf.App("SE", i63s(e.field), posList(e.pos))
+	}
+	return lst("cte", tts), lst("cse", sts)
+}
+
+// render canonicalises a dump: its rows in the model's key order, each with its Coq term.  A back
+// index row whose entries are, as printed, exactly those of an analysed version of the same id is
+// written as a reference to that version (backRef: id -> printed entries -> version).
+func render(d *rawDump, it *interner, backRef map[int64]map[string]int64) []crow {
 	var rows []crow
 	for _, b := range d.backs {
 		var tes []tentry
@@ -510,29 +531,19 @@ func render(d *rawDump, it *interner) string {
 			for _, t := range te.terms {
 				e.terms = append(e.terms, it.tok(t))
 			}
-			sort.Slice(e.terms, func(i, j int) bool { return e.terms[i] < e.terms[j] })
 			tes = append(tes, e)
 		}
-		sort.SliceStable(tes, func(i, j int) bool { return tes[i].field < tes[j].field })
 		var ses []sentry
 		for _, se := range b.stored {
 			ses = append(ses, sentry{it.field(d, se.field), se.pos})
 		}
-		sortStoredKeys(ses)
-		tts := make([]cf.T, len(tes))
-		for i, e := range tes {
-			ts := make([]cf.T, len(e.terms))
-			for j, t := range e.terms {
-				ts[j] = i63s(t)
-			}
-			tts[i] = cf.App("TE", i63s(e.field), lst("int", ts))
-		}
-		sts := make([]cf.T, len(ses))
-		for i, e := range ses {
-			sts[i] = cf.App("SE", i63s(e.field), posList(e.pos))
-		}
+		tt, st := backEntries(tes, ses)
 		id := it.id(b.id)
-		rows = append(rows, crow{[]int64{0, id}, cf.App("RB", i63s(id), lst("cte", tts), lst("cse", sts))})
+		if ver, ok := backRef[id][string(tt)+" "+string(st)]; ok {
+			rows = append(rows, crow{[]int64{0, id}, cf.App("RBv", i63s(id), i63s(ver))})
+		} else {
+			rows = append(rows, crow{[]int64{0, id}, cf.App("RB", i63s(id), tt, st)})
+		}
 	}
 	for _, r := range d.dicts {
 		f, t := it.field(d, r.field), it.tok(r.term)
@@ -554,11 +565,44 @@ func render(d *rawDump, it *interner) string {
 		rows = append(rows, crow{[]int64{4, f, t, id}, cf.App("RT", it.pack(uint64(f), uint64(t), uint64(id), r.freq))})
 	}
 	sort.SliceStable(rows, func(i, j int) bool { return lessKey(rows[i].key, rows[j].key) })
+	return rows
+}
+
+func keyString(k []int64) string { return fmt.Sprint(k) }
+
+func rowTerms(rows []crow) cf.T {
 	ts := make([]cf.T, len(rows))
 	for i, r := range rows {
 		ts[i] = r.term
 	}
-	return string(lst("crow", ts)) + " " + string(i63(d.docCount))
+	return lst("crow", ts)
+}
+
+// dumpTerm prints one dump: in full, or (prev != nil) as the difference to prev — the rows of prev
+// whose key is gone, and the rows that are new or whose term changed.
+func dumpTerm(stores []cf.T, rows []crow, prev []crow, docCount uint64) cf.T {
+	full, gone, set := "true", []crow{}, rows
+	if prev != nil {
+		full = "false"
+		cur := make(map[string]cf.T, len(rows))
+		for _, r := range rows {
+			cur[keyString(r.key)] = r.term
+		}
+		old := make(map[string]cf.T, len(prev))
+		for _, r := range prev {
+			old[keyString(r.key)] = r.term
+			if _, ok := cur[keyString(r.key)]; !ok {
+				gone = append(gone, r)
+			}
+		}
+		set = nil
+		for _, r := range rows {
+			if t, ok := old[keyString(r.key)]; !ok || t != r.term {
+				set = append(set, r)
+			}
+		}
+	}
+	return cf.App("mkDump", cf.List(stores), cf.T(full), rowTerms(gone), rowTerms(set), i63(uint64(len(rows))), i63(docCount))
 }
 
 // ---------------------------------------------------------------- analysis results
@@ -649,7 +693,7 @@ func (it *interner) fieldByName(name string) int64 {
 	return 50 + it.tok("field:"+name)
 }
 
-func renderDoc(rd *rawDoc, it *interner) cf.T {
+func renderDoc(rd *rawDoc, it *interner) (cf.T, string) {
 	type tf struct{ t, f int64 }
 	type fe struct {
 		field int64
@@ -688,7 +732,20 @@ func renderDoc(rd *rawDoc, it *interner) cf.T {
 	for i, s := range ses {
 		sts[i] = cf.App("DS", it.pack(uint64(s.k.field), uint64(s.v)), posList(s.k.pos))
 	}
-	return cf.App("mkCDoc", lst("cdf", fts), lst("cds", sts))
+	var tes []tentry
+	for _, e := range fes {
+		te := tentry{field: e.field}
+		for _, x := range e.tfs {
+			te.terms = append(te.terms, x.t)
+		}
+		tes = append(tes, te)
+	}
+	var sks []sentry
+	for _, s := range ses {
+		sks = append(sks, s.k)
+	}
+	tt, st := backEntries(tes, sks)
+	return cf.App("mkCDoc", lst("cdf", fts), lst("cds", sts)), string(tt) + " " + string(st)
 }
 
 // ---------------------------------------------------------------- running one history
@@ -767,9 +824,18 @@ func exec(in In) vh.Result {
 	fail := func(what string, e error) vh.Result {
 		return vh.Result{Direct: &vh.Direct{Kind: "error", Detail: what + ": " + e.Error()}}
 	}
+	if len(in.Stores) == 0 || len(in.Steps) == 0 {
+		return vh.Result{Skip: true} // not an input of this harness (a replay or corpus file of cmd/c01)
+	}
+	for _, s := range in.Stores {
+		if len(s) < 5 || s[:4] != "udc-" {
+			return vh.Result{Skip: true}
+		}
+	}
 	it := &interner{m: map[string]int64{}}
 	// analysis results of every indexed version
 	var docs []cf.T
+	backRef := map[int64]map[string]int64{}
 	seen := map[string]bool{}
 	upd, delAfterUpd, shrink := map[int]int{}, false, false
 	lastArr := map[int]int{}
@@ -792,7 +858,14 @@ func exec(in In) vh.Result {
 				if err != nil {
 					return fail("analysis", err)
 				}
-				docs = append(docs, cf.App("DV", i63s(int64(o.ID)), i63s(o.Ver), renderDoc(rd, it)))
+				dt, back := renderDoc(rd, it)
+				docs = append(docs, cf.App("DV", i63s(int64(o.ID)), i63s(o.Ver), dt))
+				if backRef[int64(o.ID)] == nil {
+					backRef[int64(o.ID)] = map[string]int64{}
+				}
+				if _, ok := backRef[int64(o.ID)][back]; !ok {
+					backRef[int64(o.ID)][back] = o.Ver
+				}
 			case "delete":
 				if upd[o.ID] > 0 {
 					delAfterUpd = true
@@ -814,6 +887,7 @@ func exec(in In) vh.Result {
 		perStore[si] = ds
 	}
 	var steps []cf.T
+	var prevFirst []crow
 	for i, st := range in.Steps {
 		var ops []cf.T
 		for _, o := range st.Ops {
@@ -828,19 +902,38 @@ func exec(in In) vh.Result {
 				ops = append(ops, cf.App("ODelInt", i63s(int64(o.ID))))
 			}
 		}
-		// group the stores by what they dumped
+		// group the stores by what they dumped; the first group is written as the difference to the
+		// first group of the previous step
+		type group struct {
+			stores []cf.T
+			rows   []crow
+			count  uint64
+		}
 		var order []string
-		groups := map[string][]cf.T{}
+		groups := map[string]*group{}
 		for si := range in.Stores {
-			r := render(perStore[si][i], it)
-			if _, ok := groups[r]; !ok {
-				order = append(order, r)
+			rows := render(perStore[si][i], it, backRef)
+			sig := string(rowTerms(rows)) + fmt.Sprint(perStore[si][i].docCount)
+			g, ok := groups[sig]
+			if !ok {
+				g = &group{rows: rows, count: perStore[si][i].docCount}
+				groups[sig] = g
+				order = append(order, sig)
 			}
-			groups[r] = append(groups[r], i63s(int64(si)))
+			g.stores = append(g.stores, i63s(int64(si)))
 		}
 		var dumps []cf.T
-		for _, r := range order {
-			dumps = append(dumps, cf.T("(mkDump "+string(cf.List(groups[r]))+" "+r+")"))
+		for gi, sig := range order {
+			g := groups[sig]
+			var prev []crow
+			if gi == 0 && i > 0 {
+				prev = prevFirst
+			}
+			dumps = append(dumps, dumpTerm(g.stores, g.rows, prev, g.count))
+		}
+		prevFirst = groups[order[0]].rows
+		if prevFirst == nil {
+			prevFirst = []crow{}
 		}
 		steps = append(steps, cf.App("mkStep", cf.Bool(st.Single), lst("cop", ops), lst("cdump", dumps)))
 	}
@@ -873,10 +966,8 @@ func main() {
 			"each history run on upsidedown over gtreap, boltdb, goleveldb and moss; after every step every row of the real index (back index, term frequency, stored, dictionary, internal) and DocCount() " +
 			"are compared with the Coq model's row store; the analysis result of each (id, version) is read off a scratch index holding that version alone; " +
 			"non-trivial: some id written at least twice and some previously written id deleted",
-		ShardSize: 10,
+		ShardSize: 25,
 		Workers:   6,
 		Preamble:  "From Coq Require Import Uint63.\n",
 	}, gen, exec)
 }
-
-var _ = strings.Join
